@@ -118,12 +118,14 @@ def run(chk: Check):
         chk.undecided("K-KIND", "merge-predicate", loop, "cannot find the statement that extends the current run")
         return
     conds = conds_sym(chk, ctx, merge_stmt)
-    # read_offset as the code spells it: the conditional term inside the merge condition
+    # read_offset as the code spells it: the value the run-offset variable is (re)started with inside the loop
     ro = None
-    for c, _ in conds:
-        for x in S.walk(c):
-            if isinstance(x, tuple) and x and x[0] == "ite" and ro is None:
-                ro = x
+    starts = []
+    for n in ast.walk(loop):
+        if isinstance(n, ast.Assign) and isinstance(n.targets[0], ast.Name) and n.targets[0].id == oname:
+            starts.append(R.expr(ctx, n.value, ctx.cfg.node_of.get(n)))
+    if starts and all(x == starts[0] for x in starts):
+        ro = starts[0]
     if ro is None:
         chk.undecided("K-KIND", "merge-predicate", merge_stmt, "cannot find the current cluster's physical offset in the merge condition")
         return
